@@ -324,6 +324,172 @@ impl Prop for TerminationSync {
     }
 }
 
+// ------------------------------------------------- very deep depth limits, in a process of their own
+
+/// On positions where only the kings can shuffle, every iteration is tiny and a depth limit in the
+/// thousands is reached within seconds. The search recurses once per ply; whether the thread
+/// stacks of the real configuration (std::thread default for the search thread, rayon's global pool
+/// for the workers) hold that can only be seen in a process that may die: a stack overflow aborts.
+#[derive(Debug, Clone, Serialize, Deserialize)]
+pub struct DeepCase {
+    pub fam: u8,
+    pub wk: u16,
+    pub bk: u16,
+    pub black: bool,
+    pub depth: u16,
+    pub seed: u64,
+    /// one worker in every iteration (hook entry point) instead of the public entry point
+    #[serde(default)]
+    pub single_worker: bool,
+}
+
+/// child: run the public entry point to the end, print a summary
+pub fn deep_child(arg: &str) -> i32 {
+    let v: serde_json::Value = match serde_json::from_str(arg) {
+        Ok(v) => v,
+        Err(_) => return 2,
+    };
+    let Some(pos) = v["fen"].as_str().and_then(Pos::from_fen) else { return 2 };
+    let depth = v["depth"].as_u64().unwrap_or(1) as usize;
+    let seed = v["seed"].as_u64().unwrap_or(0);
+    let state = glue::state_direct(&pos);
+    let mut reports = 0usize;
+    let mut last_depth = 0u32;
+    let mut last_line: Vec<String> = vec![];
+    let joined;
+    if v["single_worker"].as_bool().unwrap_or(false) {
+        // one worker in every iteration (deterministic: whether a line is really followed to the
+        // full depth does not depend on what 31 other workers happened to store first); the
+        // search runs on an ordinary spawned thread and rayon's global pool, like the real one
+        let h = std::thread::spawn(move || {
+            let mut events: Vec<StatusEvent> = vec![];
+            let evaluator = Evaluator::default();
+            let _ = weechess_engine::searcher::verif::analyze_sync(state, &evaluator, seed, Some(depth), None, Some(1), None, usize::MAX, &mut |e| events.push(e));
+            events
+        });
+        match h.join() {
+            Ok(events) => {
+                joined = true;
+                for e in events {
+                    match e {
+                        StatusEvent::BestMove { line, .. } => {
+                            reports += 1;
+                            last_line = line.iter().take(1).map(|m| glue::read_move(m).lan()).collect();
+                        }
+                        StatusEvent::Progress { depth, .. } => last_depth = depth,
+                        _ => {}
+                    }
+                }
+            }
+            Err(_) => joined = false,
+        }
+    } else {
+        let (handle, control, rx) = Searcher::new().analyze(state, seed, Evaluator::default(), Some(depth), None);
+        for e in rx.iter() {
+            match e {
+                StatusEvent::BestMove { line, .. } => {
+                    reports += 1;
+                    last_line = line.iter().take(1).map(|m| glue::read_move(m).lan()).collect();
+                }
+                StatusEvent::Progress { depth, .. } => last_depth = depth,
+                _ => {}
+            }
+        }
+        joined = handle.join().is_ok();
+        drop(control);
+    }
+    println!("DEEP-OK reports={} last_depth={} first={} joined={}", reports, last_depth, last_line.join(""), joined);
+    0
+}
+
+pub struct DeepSearchProcess;
+
+impl Prop for DeepSearchProcess {
+    type Case = DeepCase;
+    fn name(&self) -> &'static str {
+        "deep_search_process"
+    }
+    fn parallelism(&self, ctx: &Ctx) -> usize {
+        ctx.threads.min(6)
+    }
+    fn max_shrink_iters(&self) -> u32 {
+        12
+    }
+    fn strategy(&self, _: &Ctx) -> BoxedStrategy<DeepCase> {
+        (0u8..(LOW_MOBILITY.len() as u8), any::<u16>(), any::<u16>(), any::<bool>(), prop_oneof![1 => 150u16..3000, 4 => 3000u16..6000], any::<u64>(), prop::bool::weighted(0.5))
+            .prop_map(|(fam, wk, bk, black, depth, seed, single_worker)| DeepCase { fam, wk, bk, black, depth, seed, single_worker })
+            .boxed()
+    }
+    fn test(&self, _: &Ctx, case: &DeepCase, loc: &mut Local) -> Result<(), String> {
+        let Some(pos) = root_pos(&Root::LowMobility(case.fam, case.wk, case.bk, case.black)) else { return Ok(()) };
+        if !pos.has_legal_move() {
+            return Ok(());
+        }
+        // a free piece makes the state space large (iterations are no longer tiny): kings and pawns only
+        if pos.b.iter().flatten().any(|x| x.1 != Kind::P && x.1 != Kind::K) {
+            loc.class("deep:skipped_root_with_a_piece");
+            return Ok(());
+        }
+        let exe = std::env::current_exe().map_err(|e| e.to_string())?;
+        let arg = json!({"fen": pos.fen(), "depth": case.depth, "seed": case.seed, "single_worker": case.single_worker}).to_string();
+        let mut child = std::process::Command::new(exe)
+            .args(["C04", "--deep-child", &arg])
+            .stdin(std::process::Stdio::null())
+            .stdout(std::process::Stdio::piped())
+            .stderr(std::process::Stdio::piped())
+            .spawn()
+            .unwrap_or_else(|e| crate::runner::harness_fail(&format!("cannot spawn the deep-search child: {}", e)));
+        let t0 = Instant::now();
+        let status = loop {
+            match child.try_wait() {
+                Ok(Some(st)) => break st,
+                Ok(None) => {
+                    if t0.elapsed() > Duration::from_secs(120) {
+                        // where the kings have room the iterations are not tiny any more and a depth
+                        // limit in the thousands is simply expensive: nothing to conclude
+                        let _ = child.kill();
+                        let _ = child.wait();
+                        loc.class("deep:inconclusive_not_finished_in_120s");
+                        return Ok(());
+                    }
+                    std::thread::sleep(Duration::from_millis(20));
+                }
+                Err(e) => crate::runner::harness_fail(&format!("wait failed: {}", e)),
+            }
+        };
+        let mut out = String::new();
+        let mut err = String::new();
+        use std::io::Read;
+        let _ = child.stdout.take().map(|mut o| o.read_to_string(&mut out));
+        let _ = child.stderr.take().map(|mut o| o.read_to_string(&mut err));
+        loc.eval();
+        if !status.success() {
+            let tail: String = err.lines().rev().take(4).collect::<Vec<_>>().into_iter().rev().collect::<Vec<_>>().join(" | ");
+            return Err(format!(
+                "a process searching '{}' with depth limit {} (seed {}, {}) died with {:?} instead of finishing the search: {}",
+                pos.fen(), case.depth, case.seed, if case.single_worker { "one worker per iteration" } else { "public entry point" }, status, tail
+            ));
+        }
+        let line = out.lines().find(|l| l.starts_with("DEEP-OK")).ok_or_else(|| format!("the child printed no summary: {}", out))?;
+        let field = |k: &str| line.split(' ').find_map(|t| t.strip_prefix(k)).unwrap_or("").to_string();
+        if field("joined=") != "true" {
+            return Err(format!("depth-{} search of '{}': the search thread panicked ({})", case.depth, pos.fen(), line));
+        }
+        if field("reports=") == "0" {
+            return Err(format!("depth-{} search of '{}' ended without reporting any line ({})", case.depth, pos.fen(), line));
+        }
+        let first = field("first=");
+        if !pos.legal().iter().any(|(m, _)| m.lan() == first) {
+            return Err(format!("depth-{} search of '{}' reported '{}', which is not a legal move there", case.depth, pos.fen(), first));
+        }
+        loc.nontrivial(&(pos.fen4(), case.depth, case.single_worker));
+        loc.class(if case.single_worker { "deep:one_worker_per_iteration" } else { "deep:public_entry_point" });
+        loc.class(if case.depth >= 3000 { "deep:limit_3000_and_more" } else if case.depth >= 1000 { "deep:limit_1000_2999" } else { "deep:limit_below_1000" });
+        loc.sample(|| json!({"fen": pos.fen(), "depth_limit": case.depth, "child": line, "wall_ms": t0.elapsed().as_millis() as u64}));
+        Ok(())
+    }
+}
+
 // ---------------------------------------------------------- real threads, public entry point
 
 #[derive(Debug, Clone, Copy, Serialize, Deserialize, PartialEq, Eq)]
@@ -498,6 +664,7 @@ pub fn plan(ctx: &Ctx) -> Plan {
         props: vec![
             (Box::new(TerminationSync), t.pick(4_000, 150_000)),
             (Box::new(TerminationThreads { watchdog: Duration::from_secs(60) }), t.pick(300, 6_000)),
+            (Box::new(DeepSearchProcess), t.pick(30, 600)),
         ],
         rule: "node-clock part (deterministic): roots from sparse generated positions, terminal positions (hand list + \
                the terminal positions of the K+X v K families) and a low-mobility family (locked pawn walls confining both \
@@ -510,7 +677,12 @@ pub fn plan(ctx: &Ctx) -> Plan {
                reports no move and returns; other roots satisfy C03's oracle; the returned artifact seeds a further search \
                that satisfies C03's oracle. Real-thread part (public Searcher::analyze): scripts over {Stop now, Stop \
                after first event, Stop after completion, Stop twice, drop receiver, sleep}; join() must return Ok within a \
-               60 s watchdog (typical < 0.1 s) while the caller still holds the control sender. Non-trivial = distinct \
+               60 s watchdog (typical < 0.1 s) while the caller still holds the control sender. Process part \
+               (deep_search_process): kings-and-pawns roots of the low-mobility family searched through the public entry \
+               point with depth limits 150-5999 in a child process of the harness (ordinary spawned thread, rayon's \
+               global pool; every second case with one worker in every iteration through the hook, where the outcome is \
+               deterministic; a child that has not finished after 120 s is inconclusive and counted): the child must exit normally, the search thread must join, at least one line must have been \
+               reported and its first move must be legal. Non-trivial = distinct \
                cases whose Stop landed strictly inside the search, terminal roots, low-mobility roots whose iterations \
                all stay below the poll interval, and every real-thread script.",
         assumptions: &[
